@@ -817,6 +817,12 @@ func (p *Path) knownNilFromValue(dv DV) (isNil, known bool) {
 	case *ssa.Alloc, *ssa.MakeInterface, *ssa.MakeClosure, *ssa.MakeMap, *ssa.MakeChan, *ssa.MakeSlice,
 		*ssa.FieldAddr, *ssa.IndexAddr, *ssa.Function, *ssa.Global:
 		return false, true
+	case *ssa.Call:
+		// constructors that never return nil
+		switch calleeName(&v.Call) {
+		case "fmt.Errorf", "errors.New":
+			return false, true
+		}
 	}
 	return false, false
 }
